@@ -1,59 +1,18 @@
 import Oracle.Sexp
 import Folang.Model.Prec
+import Folang.Model.TermParser
 import Folang.Spec.OpTable
 /-
 Oracle stream `c08.chain`: an abstract operator chain (terms: names, applications, `not`, parenthesised
 chains; line breaks before operators) is rendered to tokens and parsed by the token-level model
-`Folang.Prec.exprP` with the concrete term parser below (mirror of parseTerm / parseAtomList /
-parseAtom for this fragment); the answer is the grouping tree with parentheses dropped.
+`Folang.Prec.exprP` with the concrete term parser `Folang.Prec.pTerm` (Model/TermParser.lean: mirror
+of parseTerm / parseAtomList / parseAtom for this fragment; Props/C08Term.lean proves it reads back
+every well-formed operand); the answer is the grouping tree with parentheses dropped.
 The answer is also compared, inside the oracle, with the chain-level reference `group`
 (`check-failed` if they ever differ).
 -/
 namespace Oracle.Prec
 open Folang.Prec Folang.Spec Oracle
-
-/-- operand trees -/
-inductive OT where
-  | name (s : String)
-  | not (t : OT)
-  | app (ts : List OT)
-  | paren (e : G OT)
-
-def isEndOfTerm : List Tok → Bool
-  | [] => true
-  | .eol :: _ => true
-  | .op _ :: _ => true
-  | .other ")" :: _ => true
-  | _ => false
-
-mutual
-partial def pAtom (fuel : Nat) : List Tok → Option (OT × List Tok)
-  | .other "(" :: r =>
-    match exprP (pTerm fuel) publishedPrec fuel 1 r with
-    | some (e, .other ")" :: r') => some (.paren e, r')
-    | _ => none
-  | .other ")" :: _ => none
-  | .other s :: r => some (.name s, r)
-  | _ => none
-partial def pAtomList (fuel : Nat) (ts : List Tok) : Option (List OT × List Tok) :=
-  match pAtom fuel ts with
-  | none => none
-  | some (a, r) =>
-    if isEndOfTerm r then some ([a], r)
-    else match pAtomList fuel r with
-      | none => none
-      | some (as, r') => some (a :: as, r')
-partial def pTerm (fuel : Nat) : List Tok → Option (OT × List Tok)
-  | .other "not" :: r =>
-    match pTerm fuel r with
-    | none => none
-    | some (t, r') => some (.not t, r')
-  | ts =>
-    match pAtomList fuel ts with
-    | none => none
-    | some ([a], r) => some (a, r)
-    | some (as, r) => some (.app as, r)
-end
 
 /-! rendering of the abstract chain to tokens -/
 mutual
@@ -107,7 +66,7 @@ def handle (payload : List Sx) : Sx :=
     | none => .atom "bad-chain"
     | some ts =>
       let fuel := 4 * ts.length + 8
-      match exprP (pTerm fuel) publishedPrec fuel 1 ts with
+      match exprP (pTerm publishedPrec fuel) publishedPrec fuel 1 ts with
       | some (g, []) =>
         let c := chainOf g
         -- the proved equality climb = group, re-checked on this input
